@@ -2,6 +2,31 @@ pub mod assembler;
 pub mod bit_value;
 pub mod parser;
 
+/// Subtraction of a field's bias that reports overflow instead of wrapping or panicking.
+pub trait BiasSub: Sized {
+    fn bias_sub(self, bias: Self) -> Option<Self>;
+}
+macro_rules! impl_bias_sub {
+    (float: $($t:ty),*) => {$(
+        impl BiasSub for $t {
+            #[inline]
+            fn bias_sub(self, bias: Self) -> Option<Self> {
+                Some(self - bias)
+            }
+        }
+    )*};
+    (int: $($t:ty),*) => {$(
+        impl BiasSub for $t {
+            #[inline]
+            fn bias_sub(self, bias: Self) -> Option<Self> {
+                self.checked_sub(bias)
+            }
+        }
+    )*};
+}
+impl_bias_sub!(float: f32, f64);
+impl_bias_sub!(int: u8, u16, u32, u64, usize, i8, i16, i32, i64);
+
 macro_rules! df {
     (
         id: $id:ident,
@@ -46,7 +71,10 @@ macro_rules! df {
                 let mut value = *value;
                 $(
                     if value >= $bias {
-                        value -= $bias;
+                        value = match $crate::df::BiasSub::bias_sub(value, $bias) {
+                            Some(value) => value,
+                            None => return Err(RtcmError::OutOfRange),
+                        };
                     } else {
                         return Err(RtcmError::OutOfRange);
                     }
